@@ -1012,6 +1012,19 @@ where
                         label: label.to_string(),
                     })?;
 
+                    // The combined commitments are flattened into one list below and read back
+                    // according to the degree bounds of the labels: a degree-bound part without a
+                    // degree bound (or the other way round) would shift that list by one element
+                    // and put it in the place of the next equation's commitment.
+                    if cur_comm.degree_bound().is_some()
+                        != cur_comm.commitment().shifted_comm.is_some()
+                    {
+                        return Err(Error::IncorrectInputLength(format!(
+                            "commitment {} has a degree bound without a shifted commitment or a shifted commitment without a degree bound",
+                            label
+                        )));
+                    }
+
                     if num_polys == 1 && cur_comm.degree_bound().is_some() {
                         assert!(
                             coeff.is_one(),
